@@ -133,10 +133,25 @@ pub fn strings_upto(alphabet: &[&str], max: usize) -> Vec<String> {
 
 pub struct Out {
     pub lines: Vec<String>,
+    /// `harness gen`: write the requests to stdout in blocks instead of holding millions of lines
+    /// (the thorough tier of some generators would otherwise reach the address-space limit)
+    stream: bool,
 }
 impl Out {
     pub fn new() -> Self {
-        Out { lines: vec![] }
+        Out { lines: vec![], stream: false }
+    }
+    pub fn streaming() -> Self {
+        Out { lines: vec![], stream: true }
+    }
+    pub fn flush(&mut self) {
+        use std::io::Write;
+        let stdout = std::io::stdout();
+        let mut w = std::io::BufWriter::new(stdout.lock());
+        for l in self.lines.drain(..) {
+            writeln!(w, "{}", l).unwrap();
+        }
+        w.flush().unwrap();
     }
     pub fn req(&mut self, op: &str, args: &[String]) {
         let mut l = String::from(op);
@@ -145,5 +160,8 @@ impl Out {
             l.push_str(a);
         }
         self.lines.push(l);
+        if self.stream && self.lines.len() >= 1 << 16 {
+            self.flush();
+        }
     }
 }
